@@ -30,29 +30,41 @@ pub fn write_file(path: &Path, content: &[u8], mtime: i64) {
     set_mtime(path, mtime);
 }
 
+/// A scratch directory per case.  `reset` moves to a directory that was never used before instead of
+/// emptying the old one: a command that n2 left running when it stopped early (budget reached,
+/// interrupt) may still create its files a moment later, and in a reused directory those files were
+/// counted as the NEXT case's observations (false alarm of C05's cliBudgetRespected, correction 23).
 pub struct TempProject {
-    pub dir: PathBuf,
+    base: PathBuf,
+    gen: std::cell::Cell<u64>,
 }
 impl TempProject {
+    fn cur(&self) -> PathBuf {
+        self.base.join(self.gen.get().to_string())
+    }
     pub fn new(tag: &str) -> TempProject {
-        let base = std::env::var("N2V_TMP").unwrap_or_else(|_| "/verif/work/tmp".into());
-        let dir = PathBuf::from(base).join(format!("{}-{}", tag, std::process::id()));
-        let _ = std::fs::remove_dir_all(&dir);
-        std::fs::create_dir_all(&dir).unwrap();
-        std::env::set_current_dir(&dir).unwrap();
-        TempProject { dir }
+        let root = std::env::var("N2V_TMP").unwrap_or_else(|_| "/verif/work/tmp".into());
+        let base = PathBuf::from(root).join(format!("{}-{}", tag, std::process::id()));
+        let _ = std::fs::remove_dir_all(&base);
+        let tp = TempProject { base, gen: std::cell::Cell::new(0) };
+        std::fs::create_dir_all(tp.cur()).unwrap();
+        std::env::set_current_dir(tp.cur()).unwrap();
+        tp
     }
     pub fn reset(&self) {
         std::env::set_current_dir("/").unwrap();
-        let _ = std::fs::remove_dir_all(&self.dir);
-        std::fs::create_dir_all(&self.dir).unwrap();
-        std::env::set_current_dir(&self.dir).unwrap();
+        // best effort: a late writer can make this fail, the leftovers go with `base` in drop
+        let _ = std::fs::remove_dir_all(self.cur());
+        self.gen.set(self.gen.get() + 1);
+        let _ = std::fs::remove_dir_all(self.cur());
+        std::fs::create_dir_all(self.cur()).unwrap();
+        std::env::set_current_dir(self.cur()).unwrap();
     }
 }
 impl Drop for TempProject {
     fn drop(&mut self) {
         let _ = std::env::set_current_dir("/");
-        let _ = std::fs::remove_dir_all(&self.dir);
+        let _ = std::fs::remove_dir_all(&self.base);
     }
 }
 
